@@ -107,6 +107,13 @@ func c14Body(s *simkit.Sim, rc *simkit.RunCtx) {
 		st.attempts[sc.Name] = map[hash.SHA256Hash]int{}
 		st.completed[sc.Name] = map[hash.SHA256Hash]int{}
 	}
+	// "late recovery": one subscriber keeps failing beyond the point at which an event is shown as failed (10 retries)
+	// and recovers within the retry budget (20); the node restarts in between (see below)
+	lateRecovery := !enum && s.D.Decide("late-recovery", 4) == 3
+	if lateRecovery {
+		st.scripts[1].Mode = "flaky"
+		st.scripts[1].K = 12 + s.D.Decide("late-k", 3)
+	}
 	sample.Subscribers = st.scripts
 
 	// completion = committed deletion of the job
@@ -350,7 +357,19 @@ func c14Body(s *simkit.Sim, rc *simkit.RunCtx) {
 		return
 	}
 	// faults have stopped: let the retry schedules run (10 retries take about 17 virtual minutes)
-	s.Advance(2 * time.Hour)
+	if lateRecovery {
+		// stop and start between the 10th and the 11th retry; the attempt made while starting fails as well;
+		// the rest of the budget must still be used
+		s.Advance(time.Duration(19+s.D.Decide("late-restart-min", 12)) * time.Minute)
+		s.Enable(false)
+		h.w.Stop(h.name, s.D.Decide("late-restart-crash", 2) == 1)
+		s.Enable(true)
+		start()
+		s.Probes.Inc("restart-between-10th-and-20th-retry")
+		s.Advance(24 * time.Hour)
+	} else {
+		s.Advance(2 * time.Hour)
+	}
 	if s.Failed() {
 		return
 	}
